@@ -142,8 +142,10 @@ class SchemaInfo:
         sup = " ".join(f"({p} {' '.join(map(str, a))})" if a else f"({p})" for p, a in self.supers.items())
         inv = " ".join(f"({p} {q})" for p, q in self.inverse.items())
         tr = " ".join(map(str, self.trans))
+        eqc = eq_classes(self)
         return (f"(schema {self.tag}) (fields {fs}) (supers {sup}) (inv {inv}) (trans {tr})"
-                + (f" (parents {par})" if par else ""))
+                + (f" (parents {par})" if par else "")
+                + (f" (eqcls {' '.join(map(str, eqc))})" if eqc else ""))
 
 
 def _load_university():
@@ -701,36 +703,37 @@ def ctor_fields(info: SchemaInfo) -> Dict[int, List[int]]:
     return out
 
 
-def ctor_unsafe(info: SchemaInfo) -> Dict[int, List[int]]:
-    """class id -> managed fields that must not receive a value in a constructor call of a VALUE-EQUALITY class (an
-    eq-dataclass such as the repository's Company / Person): while `__init__` is still assigning such a field, its
-    inverse (or the inverse of a super-property) is written into a list / single-valued field of another object, whose
-    membership test compares the half-built instance with the elements already there through the generated `__eq__`
-    — which reads the fields `__init__` has not assigned yet and raises AttributeError (observed on the unchanged
-    tree, see notes/build_reports/c15.md; not generated until it is modelled as a finding)."""
+def eq_classes(info: SchemaInfo) -> List[int]:
+    """ids of the classes whose instances are compared BY VALUE over their managed fields: eq-dataclasses whose
+    generated `__eq__` builds the tuple of all compared fields of both instances — so it reads every managed field,
+    and raises AttributeError for an instance whose `__init__` has not assigned a later one yet (F-C16-10 / F-C15-4;
+    `(eqcls …)` of the schema line, `HCtx.eqc` of Model/DescriptorHalfBuilt.lean). A class that compares none of its
+    managed fields (schema V: `compare=False`) reads none of them and is not listed. Anything in between is outside
+    the model and rejected loudly."""
     from dataclasses import fields as dc_fields
 
-    out: Dict[int, List[int]] = {}
-    order = ctor_fields(info)
+    out: List[int] = []
     for c, cls in enumerate(info.classes):
         params = getattr(cls, "__dataclass_params__", None)
-        if params is None or not params.eq:
-            out[c] = []
+        generated = params is not None and params.eq and "__eq__" in cls.__dict__
+        if not generated:
+            own = cls.__dict__.get("__eq__")
+            names = {info.attr(f, c) for f in range(len(info.fields)) if info.applies(f, c)}
+            if own is not None and hasattr(own, "__code__") and not set(own.__code__.co_names) & names:
+                continue    # a hand-written __eq__ that mentions no managed field (harness: `return self is other`)
+            if cls.__eq__ is not object.__eq__:
+                raise NotImplementedError(f"{cls.__name__}: inherited / hand-written __eq__ is outside the model")
             continue
-        last = dc_fields(cls)[-1].name
-        bad = []
-        for f in order[c]:
-            if info.attr(f, c) == last:
-                continue
-            p = info.props.index(type(info.desc[f]))
-            invs = {info.inverse[q] for q in [p] + info.supers[p] if q in info.inverse}
-            reach = set(invs)
-            for q in invs:
-                reach.update(info.supers[q])
-            if any(info.kinds[g] != "set" and info.props.index(type(info.desc[g])) in reach
-                   for g in range(len(info.fields))):
-                bad.append(f)
-        out[c] = bad
+        fs = list(dc_fields(cls))
+        managed = {info.attr(f, c) for f in range(len(info.fields)) if info.applies(f, c)}
+        compared = [f.name for f in fs if f.compare and f.name in managed]
+        if not compared:
+            continue
+        last_managed = max(i for i, f in enumerate(fs) if f.name in managed)
+        if len(compared) != len(managed) or any(f.compare for f in fs[last_managed + 1:]):
+            raise NotImplementedError(f"{cls.__name__}: __eq__ compares only part of the managed fields, or fields "
+                                      f"declared after the last managed one: outside the model")
+        out.append(c)
     return out
 
 
@@ -1162,6 +1165,6 @@ def _describe(tag: str):
     return {"sexp": info.sexp(), "kinds": info.kinds, "fields": info.fields, "targets": info.targets,
             # the managed fields of each class in the order the dataclass `__init__` assigns them
             "decl_order": decl_order,
-            "role_cls": list(info.role_attr.keys()), "nclasses": len(info.classes), "ctor_fields": ctor_fields(info), "ctor_unsafe": ctor_unsafe(info),
+            "role_cls": list(info.role_attr.keys()), "nclasses": len(info.classes), "ctor_fields": ctor_fields(info), "eq_classes": eq_classes(info),
             "applies": {f: [c for c in range(len(info.classes)) if info.applies(f, c)]
                         for f in range(len(info.fields))}}
